@@ -93,6 +93,11 @@ def _run_once(c, scenarios, tag, timeout=3000, collect=None):
     return runs
 
 
+# deviations that a slow or busy machine, a lost datagram or a port clash can also produce: these are re-run before being reported
+ENV_SENSITIVE = {"exit_not_prompt", "no_reply_to_valid", "health_check_unanswered", "time_service_interrupted", "not_all_workers_serving",
+                 "died_without_signal", "announced_key", "exit_status"}
+
+
 def run_scenarios(c, scenarios, tag, timeout=3000):
     """Runs the scenarios; a deviation is reported only if it shows again when the scenario is run again on its own
     (up to two confirmation runs): processes, ports, timers and the scheduler are an environment that can hiccup, and a
@@ -101,7 +106,11 @@ def run_scenarios(c, scenarios, tag, timeout=3000):
     runs = _run_once(c, scenarios, tag, timeout, found)
     by_scen = {}
     for f in found:
-        by_scen.setdefault(f[0], []).append(f)
+        if f[2] not in ENV_SENSITIVE:
+            # a reply that fails verification, a duplicate, panic output, a worker that died: never an environment artefact
+            c.violation(f[3], f[4], f[5])
+        else:
+            by_scen.setdefault(f[0], []).append(f)
     for sid, items in by_scen.items():
         sc_def = [s for s in scenarios if s["id"] == sid]
         if not sc_def:
@@ -196,7 +205,8 @@ def c18_scenarios(tier, seed):
     cl = [4, 32] if tier == "quick" else [1, 8, 32, 64]
     for w in ws:
         for cnum in cl:
-            out.append(scen(i, num_workers=w, probe_socks=24, probe_rounds=1, load={"clients": cnum, "requests": 25 if tier == "quick" else 60},
+            # consecutive bursts large enough that every worker signs several multi-request batches one after another
+            out.append(scen(i, num_workers=w, probe_socks=max(24, 8 * w), probe_rounds=3, load={"clients": cnum, "requests": 25 if tier == "quick" else 60},
                             batch_size=[64, 4, 1][i % 3], client_stats=(i % 4 == 3)))
             i += 1
     return out
